@@ -219,7 +219,7 @@ Fixpoint lim_scan (n : Z) (sc : list (list lop)) (l : list ev) (holders inside :
     end
   end.
 
-(* TR: live = admitted tasks that have not ended; running = tasks inside their body *)
+(* TR: live = accepted tasks that have not ended; running = tasks inside their body *)
 Fixpoint tr_scan (n : Z) (l : list ev) (live running : Z) : bool :=
   match l with
   | [] => true
